@@ -203,17 +203,30 @@ static void run_case(const std::string &line) {
 
 int main() {
   std::string line;
-  while (std::getline(std::cin, line)) {
 #if !defined(ESP_PLATFORM)
-    // 32-bit scheduler build: N2kMillis64() keeps a roll counter in function-local statics, so every case gets a fresh process
+  // 32-bit scheduler build: N2kMillis64() keeps a roll counter in function-local statics, so every case gets a fresh process
+  while (std::getline(std::cin, line)) {
     fflush(stdout);
     pid_t pid = fork();
     if (pid == 0) { run_case(line); fflush(stdout); _exit(0); }
     int st = 0; waitpid(pid, &st, 0);
     if (!(WIFEXITED(st) && WEXITSTATUS(st) == 0)) { printf("crash %s\n", WIFSIGNALED(st) ? "signal" : "sanitizer"); fflush(stdout); }
-#else
-    run_case(line);
-#endif
   }
+#else
+  // 64-bit scheduler build: nodes are never destroyed (tNMEA2000 releases nothing), so batches of cases run in child processes to keep
+  // the memory bounded; if a child dies, this process stops with it so that the caller sees on which case the output ends
+  std::vector<std::string> batch;
+  bool more = true;
+  while (more) {
+    batch.clear();
+    while (batch.size() < 200 && (more = (bool)std::getline(std::cin, line))) batch.push_back(line);
+    if (batch.empty()) break;
+    fflush(stdout);
+    pid_t pid = fork();
+    if (pid == 0) { for (auto &l : batch) run_case(l); fflush(stdout); _exit(0); }
+    int st = 0; waitpid(pid, &st, 0);
+    if (!(WIFEXITED(st) && WEXITSTATUS(st) == 0)) { fflush(stdout); _exit(WIFSIGNALED(st) ? 2 : 1); }
+  }
+#endif
   return 0;
 }
